@@ -99,13 +99,57 @@ pub fn run(head: &str, args: &[Sexp]) -> Option<Sexp> {
     let mut b = SchemeBuilder::new();
     b.add_field("f", Type::Bytes).ok()?;
     let scheme = b.build();
-    let parser = FilterParser::with_settings(&scheme, settings);
-    let filter_text = format!("f {} {}", op, render(form, &text));
-    let ast = match parser.parse(&filter_text) {
-        Ok(ast) => ast,
-        Err(e) => return Some(Sexp::tagged("err", err_kind(&format!("{:?}", e)))),
+    // The limits reach the parser through one of the three configuration paths, and the comparison stands at the
+    // top level or inside constructs that do not change its truth value (parentheses, a double negation): the
+    // literal, its limits and its matches must not depend on either.  Both are chosen from the case text.
+    let route = text.bytes().fold(0xcbf29ce484222325u64 ^ values.len() as u64, |h, b| {
+        (h ^ b as u64).wrapping_mul(0x100000001b3)
+    }) >> 11;
+    let parser = match route % 3 {
+        0 => FilterParser::with_settings(&scheme, settings),
+        1 => scheme.parser_with_settings(settings),
+        _ => {
+            let mut p = FilterParser::new(&scheme);
+            p.regex_set_compiled_size_limit(settings.regex_compiled_size_limit);
+            p.regex_set_dfa_size_limit(settings.regex_dfa_size_limit);
+            p.wildcard_set_star_limit(settings.wildcard_star_limit);
+            p
+        }
     };
-    let mut out = match ast.expression() {
+    let cmp_text = format!("f {} {}", op, render(form, &text));
+    let filter_text = match (route / 3) % 4 {
+        0 => cmp_text.clone(),
+        1 => format!("({})", cmp_text),
+        2 => format!("not (not {})", cmp_text),
+        _ => format!("( ( {} ) )", cmp_text),
+    };
+    // The comparison on its own decides the error kind (text after an early closing quote reads differently
+    // inside parentheses); whether the literal is accepted must not depend on the wrapping.
+    let plain = parser.parse(&cmp_text);
+    let ast = match (parser.parse(&filter_text), plain) {
+        (Ok(ast), Ok(_)) => ast,
+        (Err(_), Err(e)) => return Some(Sexp::tagged("err", err_kind(&format!("{:?}", e)))),
+        (Ok(_), Err(e)) => {
+            let mut v = vec![Sexp::sym("rejected-only-at-top-level")];
+            v.extend(err_kind(&format!("{:?}", e)));
+            return Some(Sexp::tagged("acceptance-depends-on-context", v));
+        }
+        (Err(e), Ok(_)) => {
+            let mut v = vec![Sexp::sym("rejected-only-when-wrapped")];
+            v.extend(err_kind(&format!("{:?}", e)));
+            return Some(Sexp::tagged("acceptance-depends-on-context", v));
+        }
+    };
+    // peel the wrapping off again
+    let mut inner = ast.expression();
+    loop {
+        match inner {
+            LogicalExpr::Parenthesized(p) => inner = &p.expr,
+            LogicalExpr::Unary { arg, .. } => inner = arg,
+            _ => break,
+        }
+    }
+    let mut out = match inner {
         LogicalExpr::Comparison(c) => match c.operator() {
             ComparisonOpExpr::Matches(re) if head == "regex" => vec![
                 Sexp::Bytes(re.as_str().as_bytes().to_vec()),
